@@ -147,10 +147,6 @@ row(SCD, "call", "crate::from::<impl %s>::from|diverge|panic!#match" % U,
 row("<crate::support::scale::PrefixInput<'a, T> as parity_scale_codec::codec::Input>::read", "assert:BoundsCheck",
     "BoundsCheck[0]", "buffer[0] in the match arm guarded by `if !buffer.is_empty()`",
     requires=[{"test": "core::slice::<impl [T]>::is_empty", "truth": False}])
-row("<crate::support::scale::PrefixInput<'a, T> as parity_scale_codec::codec::Input>::read", "foreign", IDXM,
-    "&mut buffer[1..] in the same guarded arm (len >= 1)",
-    requires=[{"test": "core::slice::<impl [T]>::is_empty", "truth": False}])
-
 PG = "crate::support::postgres::<impl postgres_types::FromSql<'a> for %s>::from_sql" % U
 row(PG + "::{closure#0}", "foreign", RUNWRAP,
     "raw.try_into::<[u8; 2]>().unwrap() on the items of chunks_exact(2), which are exactly 2 bytes long (core "
